@@ -167,7 +167,7 @@ def merge (s : St) (order : List Nat) : St × Res :=
       match getFile (dirOf s db).data id with
       | none => (s, m)
       | some f =>
-        let sc := scan C id f.bytes
+        let sc := scan C false id f.bytes
         let (s, m) := sc.recs.foldl (fun (acc : St × MergeSt) (x : ByteArray × Pos) =>
           mergeRec acc.1 db acc.2 nonMerge id x.1 x.2) (s, m)
         if !sc.ok ∧ m.failed.isNone then (s, { m with failed := some "crc" }) else (s, m))
